@@ -79,11 +79,20 @@ fn fnv64(data: &[u8]) -> u64 {
     h
 }
 
+/// The first line of every script is the signature with the build's `git describe` baked in by build.rs (which does not
+/// re-run on new commits): two builds of the same sources may differ there, so digests leave it out.
+fn body(script: &[u8]) -> &[u8] {
+    match script.iter().position(|b| *b == b'\n') {
+        Some(i) => &script[i + 1..],
+        None => script,
+    }
+}
+
 fn run_inline(idx: usize, shell: &str, text: &str) -> String {
     match compile(text, shell_of(shell)) {
         Ok((script, dfa, regex)) => format!(
             "op{idx} ok {:016x} {:016x} {:016x}",
-            fnv64(&script),
+            fnv64(body(&script)),
             fnv64(&dfa),
             fnv64(&regex)
         ),
